@@ -116,7 +116,7 @@ package eval
 //@   props C03
 //@   results r
 //@   ensures sound: r ==> (exists t types.EntityUID :: inTarget(parents, t) && reach(env, entity, t))
-//@   ensures complete: !r ==> (forall t types.EntityUID :: { inTarget(parents, t) } inTarget(parents, t) ==> !reach(env, entity, t))
+//@   ensures complete: !r ==> (forall t types.EntityUID :: { inTarget(parents, t) } { reach(env, entity, t) } inTarget(parents, t) ==> !reach(env, entity, t))
 //@   loop 1
 //@     invariant !inTarget(parents, entity) && !has(known.m, entity)
 //@     invariant forall x types.EntityUID :: { has(known.m, x) } has(known.m, x) ==> !inTarget(parents, x)
@@ -188,6 +188,62 @@ package eval
 //@     invariant len(p2.Conditions) == len(p.Conditions) && p2.Effect == p.Effect && p2.Principal == p.Principal && p2.Action == p.Action && p2.Resource == p.Resource
 //@     invariant forall j int :: (0 <= j && j < $i) ==> (p2.Conditions[j].Condition == p.Conditions[j].Condition && p2.Conditions[j].Body == fold#0(p.Conditions[j].Body))
 //@ frameclean C04 foldPolicy
+
+// ----------------------------------------- scope tests in partial evaluation
+// A scope clause is decided exactly when the request part is a concrete
+// entity; the verdict is the one the full evaluator gives for the scope's
+// expression (scopeToNode): equality, reachability, reachability of some
+// member of the set, type test.
+//@ spec func isVar(v types.Value) bool = (v is types.EntityUID) && v.(types.EntityUID).Type == types.EntityType("__cedar::variable")
+//@ spec func isIgn(v types.Value) bool = (v is types.EntityUID) && v.(types.EntityUID).Type == types.EntityType("__cedar::ignore")
+//@ spec func scopeMatch(env Env, e types.EntityUID, in ast.IsScopeNode) bool = (in is ast.ScopeTypeAll) ? true : ((in is ast.ScopeTypeEq) ? e == in.(ast.ScopeTypeEq).Entity : ((in is ast.ScopeTypeIn) ? reach(env, e, in.(ast.ScopeTypeIn).Entity) : ((in is ast.ScopeTypeInSet) ? (exists j int :: 0 <= j && j < len(in.(ast.ScopeTypeInSet).Entities) && reach(env, e, in.(ast.ScopeTypeInSet).Entities[j])) : ((in is ast.ScopeTypeIs) ? e.Type == in.(ast.ScopeTypeIs).Type : ((in is ast.ScopeTypeIsIn) ? (e.Type == in.(ast.ScopeTypeIsIn).Type && reach(env, e, in.(ast.ScopeTypeIsIn).Entity)) : false)))))
+//@ func IsVariable
+//@   pure
+//@   results r
+//@   ensures r == isVar(v)
+//@ func IsIgnore
+//@   pure
+//@   results r
+//@   ensures r == isIgn(v)
+//@ func partialScopeEval
+//@   props C03 C06
+//@   dispatch Container.Contains
+//@   results evaled, result
+//@   ensures isVar(ent) ==> !evaled
+//@   ensures (!isVar(ent) && isIgn(ent)) ==> (evaled && result)
+//@   ensures !(ent is types.EntityUID) ==> !evaled
+//@   ensures ((ent is types.EntityUID) && !isVar(ent) && !isIgn(ent)) ==> evaled
+//@   ensures all: ((ent is types.EntityUID) && !isVar(ent) && !isIgn(ent) && (in is ast.ScopeTypeAll)) ==> result
+//@   ensures eq: ((ent is types.EntityUID) && !isVar(ent) && !isIgn(ent) && (in is ast.ScopeTypeEq)) ==> result == (ent.(types.EntityUID) == in.(ast.ScopeTypeEq).Entity)
+//@   ensures in: ((ent is types.EntityUID) && !isVar(ent) && !isIgn(ent) && (in is ast.ScopeTypeIn)) ==> result == reach(env, ent.(types.EntityUID), in.(ast.ScopeTypeIn).Entity)
+//@   ensures inset_sound: ((ent is types.EntityUID) && !isVar(ent) && !isIgn(ent) && (in is ast.ScopeTypeInSet) && result) ==> (exists j int :: 0 <= j && j < len(in.(ast.ScopeTypeInSet).Entities) && reach(env, ent.(types.EntityUID), in.(ast.ScopeTypeInSet).Entities[j]))
+//@   ensures inset_complete: ((ent is types.EntityUID) && !isVar(ent) && !isIgn(ent) && (in is ast.ScopeTypeInSet) && !result) ==> (forall j int :: (0 <= j && j < len(in.(ast.ScopeTypeInSet).Entities)) ==> !reach(env, ent.(types.EntityUID), in.(ast.ScopeTypeInSet).Entities[j]))
+//@   ensures is: ((ent is types.EntityUID) && !isVar(ent) && !isIgn(ent) && (in is ast.ScopeTypeIs)) ==> result == (ent.(types.EntityUID).Type == in.(ast.ScopeTypeIs).Type)
+//@   ensures isin: ((ent is types.EntityUID) && !isVar(ent) && !isIgn(ent) && (in is ast.ScopeTypeIsIn)) ==> result == (ent.(types.EntityUID).Type == in.(ast.ScopeTypeIsIn).Type && reach(env, ent.(types.EntityUID), in.(ast.ScopeTypeIsIn).Entity))
+//@ func partialPrincipalScope
+//@   props C06
+//@   results out, keep
+//@   ensures isVar(ent) ==> (keep && out == scope)
+//@   ensures !(ent is types.EntityUID) ==> (keep && out == scope)
+//@   ensures ((ent is types.EntityUID) && !isVar(ent)) ==> (keep ==> out is ast.ScopeTypeAll)
+//@   ensures ((ent is types.EntityUID) && !isVar(ent) && !isIgn(ent) && (scope is ast.ScopeTypeEq)) ==> keep == (ent.(types.EntityUID) == scope.(ast.ScopeTypeEq).Entity)
+//@   ensures ((ent is types.EntityUID) && !isVar(ent) && !isIgn(ent) && (scope is ast.ScopeTypeIn)) ==> keep == reach(env, ent.(types.EntityUID), scope.(ast.ScopeTypeIn).Entity)
+//@ func partialActionScope
+//@   props C06
+//@   results out, keep
+//@   ensures isVar(ent) ==> (keep && out == scope)
+//@   ensures !(ent is types.EntityUID) ==> (keep && out == scope)
+//@   ensures ((ent is types.EntityUID) && !isVar(ent)) ==> (keep ==> out is ast.ScopeTypeAll)
+//@   ensures ((ent is types.EntityUID) && !isVar(ent) && !isIgn(ent) && (scope is ast.ScopeTypeEq)) ==> keep == (ent.(types.EntityUID) == scope.(ast.ScopeTypeEq).Entity)
+//@   ensures ((ent is types.EntityUID) && !isVar(ent) && !isIgn(ent) && (scope is ast.ScopeTypeIn)) ==> keep == reach(env, ent.(types.EntityUID), scope.(ast.ScopeTypeIn).Entity)
+//@ func partialResourceScope
+//@   props C06
+//@   results out, keep
+//@   ensures isVar(ent) ==> (keep && out == scope)
+//@   ensures !(ent is types.EntityUID) ==> (keep && out == scope)
+//@   ensures ((ent is types.EntityUID) && !isVar(ent)) ==> (keep ==> out is ast.ScopeTypeAll)
+//@   ensures ((ent is types.EntityUID) && !isVar(ent) && !isIgn(ent) && (scope is ast.ScopeTypeEq)) ==> keep == (ent.(types.EntityUID) == scope.(ast.ScopeTypeEq).Entity)
+//@   ensures ((ent is types.EntityUID) && !isVar(ent) && !isIgn(ent) && (scope is ast.ScopeTypeIn)) ==> keep == reach(env, ent.(types.EntityUID), scope.(ast.ScopeTypeIn).Entity)
 
 // ------------------------------------------- policy -> expression (C02, C04)
 // A policy is the conjunction, in this order, of its scope tests (principal,
